@@ -43,6 +43,11 @@ type c15Model struct {
 	pos  int
 	eom  bool
 	next byte // next payload byte
+	// unknown: a read failed with not-enough-bytes. Where the cursor is
+	// after a failed read is not part of the property (only that restoring
+	// a saved position makes the unread bytes readable again), so nothing
+	// is judged until the position is restored or the queue is reset.
+	unknown bool
 }
 
 func (m *c15Model) total() int {
@@ -141,11 +146,15 @@ func c15Run(cs c15Case, r *rt.Result) (sig, detail string) {
 		if cs.Disc != "recv" {
 			avail = written - m.pos
 		}
+		if m.unknown {
+			r.Count("reads_after_failed_read_unjudged", 1)
+			return "", ""
+		}
 		if n > avail {
 			if !errors.Is(err, tds.ErrNotEnoughBytes) {
 				return "short-read-not-reported/" + op + "/" + st, fmt.Sprintf("%s(%d) with %d bytes available returned err=%v, want ErrNotEnoughBytes", op, n, avail, err)
 			}
-			m.pos = m.total()
+			m.unknown = true
 			r.Count("failed_reads", 1)
 			return "", ""
 		}
@@ -248,14 +257,26 @@ func c15Run(cs c15Case, r *rt.Result) (sig, detail string) {
 				return p, e
 			})
 		case "save":
+			if m.unknown {
+				break
+			}
 			pi, di := q.Position()
 			sv = saved{pi, di, m.pos, true}
 		case "restore":
 			if sv.ok {
 				q.SetPosition(sv.pi, sv.di)
 				m.pos = sv.flat
+				if m.unknown {
+					r.Count("restores_after_failed_read", 1)
+				}
+				m.unknown = false
 			}
 		case "discard":
+			if m.unknown {
+				// discarding at an unspecified position: not generated for
+				// judged runs; skip the operation altogether
+				break
+			}
 			q.DiscardUntilCurrentPosition()
 			for len(m.pk) > 0 && m.pos >= len(m.pk[0]) {
 				m.pos -= len(m.pk[0])
@@ -265,10 +286,13 @@ func c15Run(cs c15Case, r *rt.Result) (sig, detail string) {
 			r.Count("discards", 1)
 		case "reset":
 			q.Reset()
-			*m = c15Model{next: m.next}
+			*m = c15Model{next: m.next} // also clears unknown
 			sv.ok = false
 			written = 0
 		case "eomq":
+			if m.unknown {
+				break
+			}
 			gotA, gotE := q.AllPacketsConsumed(), q.IsEOM()
 			wantA := m.pos == m.total()
 			if gotA != wantA || gotE != (wantA && m.eom) {
@@ -381,7 +405,7 @@ func c15Run(cs c15Case, r *rt.Result) (sig, detail string) {
 		default:
 			panic("c15: unknown op " + op.Op)
 		}
-		if s == "" && op.Op != "add" && cs.Disc == "recv" {
+		if s == "" && op.Op != "add" && cs.Disc == "recv" && !m.unknown {
 			s, d = checkPos(op.Op)
 		}
 		if s != "" {
@@ -427,7 +451,7 @@ func runC15(c *Ctx) {
 	r := c.R
 	r.Rule = "operation sequences over the exported PacketQueue API in three disciplines (recv, write-then-read-back, alternating), compared step by step with a flat byte-slice model; exhaustive: all sequences up to length L over an 11-operation receive alphabet at tiny body sizes; non-trivial = a read or write crossed at least one packet boundary; distinct = distinct operation sequence"
 	r.TrustedBase = []string{"flat byte-slice model in harness/cmd/vworker/c15.go"}
-	r.Assumptions = []string{"writing at a non-end position and reading beyond the written bytes of a partially filled written packet are not defined by a FIFO model and are not generated", "saved positions are not reused after DiscardUntilCurrentPosition (documented as volatile)", "AddPacket bodies are non-empty (the library never enqueues header-only packets)"}
+	r.Assumptions = []string{"the cursor position after a failed read is not part of the property: after a not-enough-bytes result nothing is judged until the saved position is restored or the queue is reset", "writing at a non-end position and reading beyond the written bytes of a partially filled written packet are not defined by a FIFO model and are not generated", "saved positions are not reused after DiscardUntilCurrentPosition (documented as volatile)", "AddPacket bodies are non-empty (the library never enqueues header-only packets)"}
 	if c.Replay != nil {
 		var cs c15Case
 		if err := json.Unmarshal(c.Replay, &cs); err != nil {
